@@ -68,7 +68,10 @@ struct Engine {
 
   // ------------------------------------------------------------------ helpers
   Val nv() { return EI<E>::norm(Val(static_cast<int>(rng.below(6)), ++paycnt)); }
-  static uintmax_t lim() { return std::min<uintmax_t>(I::limit(), kMaxLen); }
+  // large-scale histories (one in twelve): lengths up to 70 x kMaxLen, so that thresholds expressed in bytes or elements (a block size, a page,
+  // a cache line) are crossed by the inline and the heap states alike; fewer operations, each of them on thousands of elements
+  uintmax_t scale = 1;
+  uintmax_t lim() const { return std::min<uintmax_t>(I::limit(), kMaxLen * scale); }
 
   template <class V>
   void create(Slot<V> &s) {
@@ -490,9 +493,10 @@ struct Engine {
   // count of elements to add to a container currently holding sz with capacity cap
   uintmax_t pick_count(const Slot<Vec> &a) {
     uintmax_t sz = a.model.size(), cap = a.prev.cap, room = lim() - std::min<uintmax_t>(lim(), sz);
-    uintmax_t c[10];
+    uintmax_t c[14];
     int n = 0;
     c[n++] = 0; c[n++] = 1; c[n++] = 2; c[n++] = 3;
+    if (scale > 1) { c[n++] = rng.below(8) * scale; c[n++] = rng.below(static_cast<uint32_t>(kMaxLen * scale)); c[n++] = room; c[n++] = room / 2; }
     if (I::kN >= sz) { c[n++] = I::kN - sz; c[n++] = I::kN - sz + 1; }
     if (cap >= sz) { c[n++] = cap - sz; c[n++] = cap - sz + 1; }
     c[n++] = rng.below(8);
@@ -1158,7 +1162,7 @@ struct Engine {
     oi.operands = 1u << gid;
     oi.primary = gid;
     uintmax_t sz = s.model.size();
-    uintmax_t room = std::min<uintmax_t>(VI::limit(), kMaxLen) - std::min<uintmax_t>(std::min<uintmax_t>(VI::limit(), kMaxLen), sz);
+    uintmax_t room = std::min<uintmax_t>(VI::limit(), kMaxLen * scale) - std::min<uintmax_t>(std::min<uintmax_t>(VI::limit(), kMaxLen * scale), sz);
     int op = rng.below(7);
     const std::string sta = state_class<V>(s.prev);
     switch (op) {
@@ -1333,6 +1337,8 @@ struct Engine {
     g_cur_op = 0;
     g_cut = false;
     paycnt = 0;
+    scale = (!g_fz_on && h % 12 == 11) ? 70 : 1;
+    if (scale > 1 && nops > 36) nops = 36;
     {
       MonScope m;
       ledger_reset();
